@@ -1109,7 +1109,106 @@ def t13_write_shape():
 
 
 
-ITEMS = {"T1": t1_fields, "T2": t2_whitelist, "T3": t3_file_modes, "T4": t4_conv_axis, "T5": t5_flatten, "T6": t6_lif, "T7": t7_cuba, "T8": t8_unique_name, "T9": t9_neuron_shapes, "T10": t10_guards, "T11": t11_dict_overrides, "T12": t12_graph_interface, "T13": t13_write_shape}
+# ---------------------------------------------------------------------------------------
+# T14  _forward_type_inference: the skeleton of the work-list (seeding, pop discipline, seen set, what is pushed)
+# ---------------------------------------------------------------------------------------
+def t14_worklist():
+    item = "T14"
+    tree = ast.parse(_src("nir/ir/graph.py"))
+    fn = _find_func(tree, "_forward_type_inference", "NIRGraph")
+    if fn is None:
+        raise Refusal(item, "_forward_type_inference not found")
+    body = [st for st in fn.body if not (isinstance(st, ast.Expr) and isinstance(st.value, ast.Constant))]
+    if len(body) != 3 or not isinstance(body[2], ast.While):
+        raise Refusal(item, "the method is not `ready = …; seen = …; while …:`")
+    st0, st1, loop = body
+
+    def edge_comp(v):
+        """[e for e in self.edges if <cond(e)>] -> (loop var, cond)"""
+        ok = isinstance(v, ast.ListComp) and isinstance(v.elt, ast.Name) and len(v.generators) == 1 \
+            and isinstance(v.generators[0].target, ast.Name) and v.generators[0].target.id == v.elt.id \
+            and ast.dump(v.generators[0].iter) == "Attribute(value=Name(id='self', ctx=Load()), attr='edges', ctx=Load())" \
+            and len(v.generators[0].ifs) == 1
+        if not ok:
+            raise Refusal(item, "a work-list comprehension is not `[e for e in self.edges if …]`")
+        return v.elt.id, v.generators[0].ifs[0]
+
+    if not (isinstance(st0, ast.Assign) and len(st0.targets) == 1 and isinstance(st0.targets[0], ast.Name)):
+        raise Refusal(item, "first statement is not an assignment to the work-list")
+    ready = st0.targets[0].id
+    e, cond = edge_comp(st0.value)
+    src = f"Subscript(value=Name(id='{e}', ctx=Load()), slice=Constant(value=0), ctx=Load())"
+    tgt = f"Subscript(value=Name(id='{e}', ctx=Load()), slice=Constant(value=1), ctx=Load())"
+    inputs_keys = ("Call(func=Attribute(value=Attribute(value=Name(id='self', ctx=Load()), attr='inputs', ctx=Load()), attr='keys', ctx=Load()), args=[], keywords=[])",
+                   "Attribute(value=Name(id='self', ctx=Load()), attr='inputs', ctx=Load())")
+    if not (isinstance(cond, ast.Compare) and len(cond.ops) == 1 and isinstance(cond.ops[0], ast.In) and ast.dump(cond.left) == src
+            and ast.dump(cond.comparators[0]) in inputs_keys):
+        raise Refusal(item, "the work-list is not seeded with the edges whose source is an Input (`e[0] in self.inputs.keys()`)")
+    ok = isinstance(st1, ast.Assign) and len(st1.targets) == 1 and isinstance(st1.targets[0], ast.Name) and isinstance(st1.value, ast.Call) \
+        and getattr(st1.value.func, "id", None) == "set" and len(st1.value.args) == 1
+    comp = st1.value.args[0] if ok else None
+    ok = ok and isinstance(comp, (ast.ListComp, ast.GeneratorExp, ast.SetComp)) and len(comp.generators) == 1 \
+        and isinstance(comp.generators[0].target, ast.Name) and not comp.generators[0].ifs \
+        and getattr(comp.generators[0].iter, "id", None) == ready \
+        and ast.dump(comp.elt) == f"Subscript(value=Name(id='{comp.generators[0].target.id}', ctx=Load()), slice=Constant(value=0), ctx=Load())"
+    if not ok:
+        raise Refusal(item, "`seen` does not start as the set of sources of the seeded edges")
+    seen = st1.targets[0].id
+    t = loop.test
+    ok = (isinstance(t, ast.Compare) and len(t.ops) == 1 and isinstance(t.ops[0], ast.Gt) and isinstance(t.left, ast.Call)
+          and getattr(t.left.func, "id", None) == "len" and getattr(t.left.args[0], "id", None) == ready
+          and isinstance(t.comparators[0], ast.Constant) and t.comparators[0].value == 0) or (isinstance(t, ast.Name) and t.id == ready)
+    if not ok:
+        raise Refusal(item, "the loop does not run while the work-list is non-empty")
+    first = loop.body[0]
+    ok = isinstance(first, ast.Assign) and len(first.targets) == 1 and isinstance(first.targets[0], ast.Tuple) \
+        and len(first.targets[0].elts) == 2 and all(isinstance(x, ast.Name) for x in first.targets[0].elts) \
+        and isinstance(first.value, ast.Call) and isinstance(first.value.func, ast.Attribute) and first.value.func.attr == "pop" \
+        and getattr(first.value.func.value, "id", None) == ready and not first.value.keywords
+    if not ok:
+        raise Refusal(item, "the loop body does not begin with `(pre, post) = ready.pop(…)`")
+    if first.value.args:
+        a0 = first.value.args[0]
+        if not (isinstance(a0, ast.Constant) and a0.value in (0, -1)):
+            raise Refusal(item, "pop index is not a literal 0 / -1")
+        lifo = a0.value == -1
+    else:
+        lifo = True
+    post = first.targets[0].elts[1].id
+    if len(loop.body) < 3:
+        raise Refusal(item, "loop body too short")
+    add, push = loop.body[-2], loop.body[-1]
+    if ast.dump(add) != f"Expr(value=Call(func=Attribute(value=Name(id='{seen}', ctx=Load()), attr='add', ctx=Load()), args=[Name(id='{post}', ctx=Load())], keywords=[]))":
+        raise Refusal(item, "the processed target is not added to `seen` (as one element) just before the push")
+    if not (isinstance(push, ast.AugAssign) and isinstance(push.op, ast.Add) and getattr(push.target, "id", None) == ready):
+        raise Refusal(item, "the loop does not end with `ready += […]`")
+    e2, cond2 = edge_comp(push.value)
+    src2 = f"Subscript(value=Name(id='{e2}', ctx=Load()), slice=Constant(value=0), ctx=Load())"
+    tgt2 = f"Subscript(value=Name(id='{e2}', ctx=Load()), slice=Constant(value=1), ctx=Load())"
+    ok = isinstance(cond2, ast.BoolOp) and isinstance(cond2.op, ast.And) and len(cond2.values) == 2
+    c1, c2 = (cond2.values if ok else (None, None))
+    ok = ok and isinstance(c1, ast.Compare) and isinstance(c1.ops[0], ast.Eq) and ast.dump(c1.left) == src2 and getattr(c1.comparators[0], "id", None) == post \
+        and isinstance(c2, ast.Compare) and isinstance(c2.ops[0], ast.NotIn) and ast.dump(c2.left) == tgt2 and getattr(c2.comparators[0], "id", None) == seen
+    if not ok:
+        raise Refusal(item, "what is pushed is not `[e for e in self.edges if e[0] == post and e[1] not in seen]`")
+    # nothing else touches the work-list or the seen set inside the loop
+    for st in loop.body[1:-2]:
+        for n in ast.walk(st):
+            if isinstance(n, ast.Name) and n.id in (ready, seen) and isinstance(n.ctx, ast.Store):
+                raise Refusal(item, "the work-list / seen set is re-bound inside the loop body")
+            if isinstance(n, ast.Call) and isinstance(n.func, ast.Attribute) and getattr(n.func.value, "id", None) in (ready, seen):
+                raise Refusal(item, "the work-list / seen set is modified inside the loop body")
+    txt = HEADER + "\nnamespace NirVerif.Generated\n\n" \
+        "/-- skeleton of `_forward_type_inference`: seeded with the edges leaving Input nodes (in edge order), `seen` = their\n" \
+        "sources; each round pops one edge; afterwards the target is added to `seen` and the target's outgoing edges to unseen\n" \
+        "nodes are appended (in edge order).  `true` = the pop takes the *last* entry (LIFO). -/\n" \
+        f"def workListPopsLast : Bool := {'true' if lifo else 'false'}\n" \
+        "def workListSeedsFromInputEdges : Bool := true\ndef workListPushesUnseenSuccessors : Bool := true\n\nend NirVerif.Generated\n"
+    return {"WorkListShape.lean": txt}
+
+
+
+ITEMS = {"T1": t1_fields, "T2": t2_whitelist, "T3": t3_file_modes, "T4": t4_conv_axis, "T5": t5_flatten, "T6": t6_lif, "T7": t7_cuba, "T8": t8_unique_name, "T9": t9_neuron_shapes, "T10": t10_guards, "T11": t11_dict_overrides, "T12": t12_graph_interface, "T13": t13_write_shape, "T14": t14_worklist}
 
 
 def regenerate(out_dir=OUT, items=None):
